@@ -95,7 +95,7 @@ def make_function(cfg, log, ctl):
                 exc = ctl['raise']
                 ctl['raised'] = exc
                 raise exc
-            if not isinstance(x, int):
+            if not isinstance(x, (int, float)):
                 return ('u', type(x).__name__)
             return expected_result(cfg, (x, y))
     g.log = log
@@ -112,6 +112,11 @@ def call_table(cfg):
         calls = [((1, 7), {}), ((2, 7), {}), ((1,), {}), ((1, 8), {'o': 1}), ((2,), {'o': 1})][:max(3, n)]
         alts = [((), {'x': 1}), ((2, 7), {})]
         return calls + alts[:min(spell, 1)]
+    if cfg.get('args') == 'float':
+        # floats that need rounding under tol, positionally and by keyword
+        calls = [((1.26,), {}), ((2.55,), {}), ((3,), {'y': 2.71828}), ((4.449,), {})][:n]
+        alts = [((), {'x': 1.26}), ((3, 2.71828), {}), ((), {'y': 2.71828, 'x': 3})]
+        return calls + alts[:spell]
     calls = []
     for x in range(1, n + 1):
         calls.append(((x,), {}))
@@ -591,7 +596,7 @@ class Result(object):
 
 def cfg_name(cfg):
     keys = ('module', 'alg', 'maxsize', 'maxsize_pos', 'purge', 'keymap', 'backend', 'init',
-            'ignore', 'tol', 'deep', 'result', 'fn', 'nargs')
+            'ignore', 'tol', 'deep', 'result', 'fn', 'args', 'nargs')
     return ' '.join('%s=%s' % (k, cfg[k]) for k in keys if k in cfg and cfg[k] not in (None, False))
 
 
